@@ -58,8 +58,8 @@ KANI_CALLERS = dict(check_collision=['handle_incoming_puback', 'handle_incoming_
 NATIVE = dict(
     rumqttc=dict(modules=[('src/state.rs', 'state_v4.rs', 'verif_native'),
                           ('src/v5/state.rs', 'state_v5.rs', 'verif_native'),
-                          ('src/eventloop.rs', 'eventloop_spec.rs', 'verif_native', dict(COPY='rumqttc', ORDERED='true', NEW='{ let mut o = MqttOptions::new("c", "localhost", 1883); o.set_inflight(inflight); EventLoop::new(o, 10) }', PUBLISH='Publish::new("t", crate::mqttbytes::QoS::AtLeastOnce, vec![issued])', PUBACK='Incoming::PubAck(crate::mqttbytes::v4::PubAck::new(pkid))')),
-                          ('src/v5/eventloop.rs', 'eventloop_spec.rs', 'verif_native', dict(COPY='rumqttc::v5', ORDERED='false', NEW='{ let mut o = MqttOptions::new("c", "localhost", 1883); o.set_outgoing_inflight_upper_limit(inflight); EventLoop::new(o, 10) }', PUBLISH='Publish::new("t", crate::v5::mqttbytes::QoS::AtLeastOnce, vec![issued], None)', PUBACK='Incoming::PubAck(crate::v5::mqttbytes::v5::PubAck::new(pkid, None))')),
+                          ('src/eventloop.rs', 'eventloop_spec.rs', 'verif_native', dict(COPY='rumqttc', ORDERED='true', NEW='{ let mut o = MqttOptions::new("c", "localhost", 1883); o.set_inflight(inflight); EventLoop::new(o, 10) }', PUBLISH='Publish::new("t", crate::mqttbytes::QoS::AtLeastOnce, vec![issued])', PUBACK='Incoming::PubAck(crate::mqttbytes::v4::PubAck::new(pkid))', PUBLISH2='Publish::new("t", crate::mqttbytes::QoS::ExactlyOnce, vec![issued])', PUBREC='Incoming::PubRec(crate::mqttbytes::v4::PubRec::new(pkid))', PUBCOMP='Incoming::PubComp(crate::mqttbytes::v4::PubComp::new(pkid))')),
+                          ('src/v5/eventloop.rs', 'eventloop_spec.rs', 'verif_native', dict(COPY='rumqttc::v5', ORDERED='false', NEW='{ let mut o = MqttOptions::new("c", "localhost", 1883); o.set_outgoing_inflight_upper_limit(inflight); EventLoop::new(o, 10) }', PUBLISH='Publish::new("t", crate::v5::mqttbytes::QoS::AtLeastOnce, vec![issued], None)', PUBACK='Incoming::PubAck(crate::v5::mqttbytes::v5::PubAck::new(pkid, None))', PUBLISH2='Publish::new("t", crate::v5::mqttbytes::QoS::ExactlyOnce, vec![issued], None)', PUBREC='Incoming::PubRec(crate::v5::mqttbytes::v5::PubRec::new(pkid, None))', PUBCOMP='Incoming::PubComp(crate::v5::mqttbytes::v5::PubComp::new(pkid, None))')),
                           ('src/mqttbytes/topic.rs', 'topic_spec.rs', 'verif_native'),
                           ('src/v5/mqttbytes/mod.rs', 'topic_spec.rs', 'verif_native'),
                           ('src/mqttbytes/v4/mod.rs', 'decoder_spec.rs', 'verif_native_dec', dict(COPY='rumqttc::mqttbytes::v4::Packet::read', DECODE='Packet::read(stream, max)')),
